@@ -1460,6 +1460,19 @@ class Engine:
             src_, dst_ = (mm.group(1), mm.group(3)) if mm.group(2) == 'Into' else (mm.group(3), mm.group(1))
             if src_ in INT_RANGES and dst_ in INT_RANGES and isinstance(args[0], IntV) and INT_RANGES[src_][0] >= INT_RANGES[dst_][0] and INT_RANGES[src_][1] <= INT_RANGES[dst_][1]:
                 return IntV(args[0].e, dst_)
+        if re.match(r'^Option::<std::result::Result<.*>>::transpose$', c) and isinstance(args[0], EnumV):
+            o = args[0]
+            inner = o.payload.get(1, {}).get(0)
+            if isinstance(o.disc, int) and o.disc == 0:
+                return EnumV('Result', 0, {0: {0: EnumV('Option', 0, {})}})
+            if isinstance(inner, EnumV):
+                od = zint_(o.disc); rd = zint_(inner.disc)
+                d = z3.simplify(z3.If(od == 1, rd, 0))
+                okv = inner.payload.get(0, {}).get(0)
+                errv = inner.payload.get(1, {}).get(0, Opaque('E', 'err'))
+                optd = z3.simplify(od)
+                return EnumV('Result', d.as_long() if z3.is_int_value(d) else d,
+                             {0: {0: EnumV('Option', optd.as_long() if z3.is_int_value(optd) else optd, {1: {0: okv}} if okv is not None else {})}, 1: {0: errv}})
         if re.match(r'^Option::<(.*)>::unwrap_or$', c):
             o = args[0]
             if isinstance(o.disc, int):
@@ -1588,6 +1601,9 @@ class Engine:
             if r['status'] != 'return':
                 st.events.append(('may_panic', 'in closure ' + fn.name[-40:] + ': ' + r['status'][:40])); continue
             out.append((r['pc'][L:], r['ret']))
+            if r['events']:
+                # opaque calls made inside the closure are part of the trace of the enclosing path, under the closure path's own condition
+                st.events.append(('pure-branch-events', list(r['events']), z3.And(r['pc'][L:]) if len(r['pc']) > L else z3.BoolVal(True)))
         return out
 
     def closure_bool(self, st, fn, args):
